@@ -124,9 +124,26 @@ package query
 //@   modifies *
 //@   ensures[a_registered_stage_is_handed_to_its_executor] !p.registeredNotExecuted
 //@ end
+//@ # ... and when the stage panics right there (a stage without a worker pool runs on the goroutine that plans it, e.g. a pool
+//@ # goroutine running its parent's completion handler, where nobody else would complete it), executeStage itself recovers
+//@ # and completes the stage it registered - otherwise pending never drains and the callback never fires ("never none").
+//@ # Second, thin contract about the recovered path only: Stage.Execute is taken to panic here (`panics`); what state client
+//@ # code leaves behind when it panics is unknown, so the no-panic obligations of that path are generated but not claimed
+//@ func pipeline.executeStage#recovered
+//@   prop C19
+//@   panics Stage.Execute
+//@   focus a_stage_that_panics_on_the_goroutine_that_plans_it_is_still_completed
+//@   ghost_entry p.registeredNotExecuted = false
+//@   ghost_after pipelineStateMachine.executeStage p.registeredNotExecuted = true
+//@   ghost_after Stage.Execute p.registeredNotExecuted = false
+//@   ghost_after pipelineStateMachine.completeStage p.registeredNotExecuted = false
+//@   requires smOK(p.sm) && (parentStageID == "" || (!p.sm.done[parentStageID] && has(p.sm.stages, parentStageID)))
+//@   modifies *
+//@   ensures_recovered[a_stage_that_panics_on_the_goroutine_that_plans_it_is_still_completed] !p.registeredNotExecuted
+//@ end
 //@ # completion handler of a stage: every child is registered while this stage is still pending,
 //@ # completeStage comes last (so pending cannot reach zero before the children are counted)
-//@ func pipeline.executeStage$1
+//@ func pipeline.executeStage$2
 //@   prop C19
 //@   requires p != nil && smOK(p.sm) && stage != nil && !p.sm.done[stageID] && stageID != "" && has(p.sm.stages, stageID)
 //@   modifies *
@@ -136,7 +153,7 @@ package query
 //@   loop 1 invariant !p.sm.done[stageID]
 //@   loop 1 invariant has(p.sm.stages, stageID)
 //@ end
-//@ func pipeline.executeStage$2
+//@ func pipeline.executeStage$3
 //@   prop C19
 //@   requires p != nil && smOK(p.sm)
 //@   modifies *
